@@ -386,6 +386,9 @@ def run(res, tier, seed, search):
         for l in open(corpus):
             if l.strip():
                 replay_case(rep, json.loads(l)); res.count("corpus")
+    res.notes.append("dot (dense and sparse): inputs are L2-normalised and zero vectors are not generated (outside the "
+                     "metric's stated domain); note that sparse_dot_product reads ind[0] of an empty row without a bounds "
+                     "check, so an empty CSR row under metric='dot' is undefined behaviour, not merely out of domain")
     swept = {}
     for kind, name in entries():
         key = "surrogate:%s:%s:" % (kind, name)
